@@ -383,9 +383,9 @@ func explore(o *options, prog *interp.Program, hs []*hstate, tier int) {
 	var wg sync.WaitGroup
 	initErr := ""
 	stopProgress := make(chan struct{})
-	if os.Getenv("SYMGO_PROGRESS") != "" || o.verbose {
+	if os.Getenv("SYMGO_PROGRESS") != "0" {
 		go func() {
-			tk := time.NewTicker(30 * time.Second)
+			tk := time.NewTicker(60 * time.Second)
 			defer tk.Stop()
 			for {
 				select {
@@ -395,13 +395,17 @@ func explore(o *options, prog *interp.Program, hs []*hstate, tier int) {
 					mu.Lock()
 					q := len(stack)
 					mu.Unlock()
-					line := fmt.Sprintf("[progress] queue=%d", q)
+					line := fmt.Sprintf("[progress %s] queue=%d", prog.Config, q)
 					for _, h := range hs {
 						h.mu.Lock()
-						line += fmt.Sprintf(" %s:%d%v", h.H.Name, h.Paths, h.Status)
+						done := ""
+						if h.Paths >= h.scheduled {
+							done = fmt.Sprintf("(done %.0fs)", h.Wall.Seconds())
+						}
+						line += fmt.Sprintf(" %s:%d/%d%s", strings.TrimPrefix(h.H.Name, "zzH"), h.Paths, h.scheduled, done)
 						h.mu.Unlock()
 					}
-					fmt.Fprintln(os.Stderr, line)
+					fmt.Println(line)
 				}
 			}
 		}()
@@ -413,7 +417,7 @@ func explore(o *options, prog *interp.Program, hs []*hstate, tier int) {
 			defer wg.Done()
 			tmo := o.timeoutMs
 			if tmo == 0 {
-				tmo = 60000
+				tmo = 30000
 				if tier == 1 {
 					tmo = 300000
 				}
